@@ -44,6 +44,9 @@ def hierarchy_stream(res, rng, n):
             d = sysobj.wire(f'd{i}', 4)
             q = sysobj.wire(f'q{i}', 4)
             leaves.append(S.Reg(p, f'r{i}', d, q))
+            if r.chance(1, 4):
+                leaves[-1].clockDriver = py4hw.ClockDriver(f'ld{i}', base=None)
+                drivers.append(leaves[-1].clockDriver)
         did = {id(d): j + 1 for j, d in enumerate(drivers)}
         ok_all = True
         for lf in leaves:
